@@ -1,4 +1,7 @@
 #!/bin/sh
-# developer convenience: ./run.sh <gosym args>
-. /verif/env.sh
+# developer convenience: ./run.sh <gosym args>   (rebuilds when sources changed)
+cd /verif && . ./env.sh
+if [ ! -x bin/gosym ] || [ -n "$(find gosym -newer bin/gosym -name '*.go' | head -1)" ]; then
+  (cd gosym && go build -o ../bin/gosym .) || exit 2
+fi
 exec /verif/bin/gosym "$@"
